@@ -296,6 +296,7 @@ class Translator:
                 continue
             if isinstance(st, ast.Expr) and isinstance(st.value, ast.Call):
                 if ast.unparse(st.value.func) == "warnings.warn":
+                    out.append(("warn",))  # raises when warnings are escalated to errors
                     continue
                 self.call_stmt(st.value, cx, out)
                 continue
@@ -513,6 +514,8 @@ class Translator:
             return f".setCls {self.T.c(s[1])} {self.T.f(s[2])} {self.lexpr(s[3])}"
         if k == "guard":
             return f".guardNotNone {self.lexpr(s[1])} ({self.lstmt(s[2])})"
+        if k == "warn":
+            return ".warn"
         if k == "raiseUnlessIn":
             return f".raiseUnlessIn {self.lexpr(s[1])} [{', '.join(self.lean_val(a) for a in s[2])}]"
         raise TranslateError(f"emit {s}")
@@ -642,7 +645,7 @@ class Translator:
                     hyp += f" (ha : [{', '.join(self.lean_val(x) for x in a[2])}].contains ({self.lexpr_args(a[1])}) = true)"
                 tname = "entered_" + n + "_" + re.sub(r"\W+", "_", oname).strip("_")
                 L.append(f"theorem {tname} (σ : Store) (args : Frame) {hyp} :\n"
-                         f"    (enteredStore c_{n} args σ).map (fun σ' => Expr.eval ⟨σ', fun _ => none, fun _ => none⟩ {self.lexpr(e)})\n"
+                         f"    (enteredStore c_{n} args σ).map (fun σ' => Expr.eval ⟨σ', fun _ => none, fun _ => none, false⟩ {self.lexpr(e)})\n"
                          f"      = some (args {self.T.f(pn)}) := by\n"
                          f"  settings_entered c_{n}")
         L.append("\nend Gen.Settings")
